@@ -511,6 +511,15 @@ def clause_f(rep, F):
     okend, pf = C02.end_answered_before_dispatch(F)
     rep.check(okend, "unreachable-end-state", "parse", "parse() can dispatch in State::End (for instance when a driver other than next_event delivered StreamEnd): "
               "the unreachable!() of state_machine's End arm panics", site=pf.span)
+    # the reviewed diverging sites of the push interface (assert_eq!(ev, DocumentEnd) in load_document, unreachable!() in load_node and the
+    # loaders' on_event) rest on invariant I4: the event sentence is well-nested (C02's role typing of the state machine and balance of
+    # the state stack).  The premise is checked here, with C02's own rules: if it fails, those panics are reachable.
+    sub = C02.run("quick")
+    prem = [v for v in sub.violations if v["rule"] in ("role-typing", "stack-ops", "dispatch", "reachable-panic", "single-writer")]
+    rep.check(not prem, "event-grammar-premise", "load_document/load_node", "the event sentence is no longer provably well-nested (%s): the assertions of the push "
+              "interface that are reviewed as unreachable under that invariant (assert_eq!(ev, DocumentEnd), unreachable!() in load_node) can fire - a panic "
+              "instead of an error" % "; ".join(sorted({"%s %s" % (v["rule"], v["key"].split(":", 1)[-1][:60]) for v in prem})[:3]),
+              site=F.fn(PARSER + "::load_node").span, detail={"violations_of_C02": len(prem)})
     # str slices: the byte offset is a character boundary by construction (a review entry cannot see an off-by-one in the offset)
     from . import utf8
     ns = utf8.check(rep, F, fns)
